@@ -17,10 +17,11 @@ BASE = 'b->yy_ch_buf'
 VARS = ['b', 'b_is_current', 'b->yy_n_chars', 'b->yy_buf_pos', 'b->yyatbol', 'b->yy_buffer_status', 'b->yy_input_file',
         'b->yy_fill_buffer', 'b->yy_bs_lineno', 'b->yy_bs_column', 'b->yy_is_interactive', 'yy_n_chars', 'yytext_ptr',
         'yy_c_buf_p', 'yyin', 'yy_hold_char', 'file', 'file_is_tty', 'errno', 'oerrno', 'size', 'b->yy_buf_size',
-        'b->yy_is_our_buffer', 'b->yy_ch_buf', 'current_slot']
+        'b->yy_is_our_buffer', 'b->yy_ch_buf', 'current_slot', 'input_file', 'YY_BUF_SIZE',
+        'yy_did_buffer_switch_on_eof']
 LEAN_NAMES = ['vB', 'vIsCur', 'fNChars', 'fBufPos', 'fAtBol', 'fStatus', 'fFile', 'fFill', 'fLineno', 'fColumn', 'fInteractive',
               'vNChars', 'vTextPtr', 'vCBufP', 'vYyin', 'vHold', 'vFile', 'vTty', 'vErrno', 'vOErrno', 'vSize', 'fBufSize',
-              'fOurs', 'fChBuf', 'vCurrentSlot']
+              'fOurs', 'fChBuf', 'vCurrentSlot', 'vInputFile', 'vBufSizeConst', 'vDidSwitch']
 
 
 class P(Y.P):
@@ -77,6 +78,17 @@ class Tr(Y.Tr):
             if p or q:
                 raise TranslateError('side effect in an allocation size')
             return ['(.growTo %s)' % n, '(.assign %d (.lit 1))' % VARS.index(BASE)]
+        if lv == ('id', 'current_slot') and op == '=' and rhs[0] == 'call' and rhs[1] == 'yy_create_buffer':
+            # the new buffer is `b`; it is not the current one until it stands in the slot
+            if 'yy_create_buffer' not in self.inl or len(rhs[2]) != 2:
+                raise TranslateError('yy_create_buffer() not translated / called with other than two arguments')
+            p1, f, q1 = self.ex(rhs[2][0]); p2, n, q2 = self.ex(rhs[2][1])
+            if p1 or q1 or p2 or q2:
+                raise TranslateError('side effect in an argument')
+            return ['(.assign %d %s)' % (VARS.index('file'), f), '(.assign %d %s)' % (VARS.index('size'), n),
+                    '(.assign %d (.lit 0))' % VARS.index('b_is_current'), '(.scope %s)' % self.inl['yy_create_buffer'],
+                    '(.assign %d (.var %d))' % (VARS.index('current_slot'), VARS.index('b')),
+                    '(.assign %d (.lit 1))' % VARS.index('b_is_current')]
         if lv[0] == 'index' and lv[1] == ('id', BASE) and op == '=':
             p1, i, q1 = self.ex(lv[2]); p2, r, q2 = self.ex(rhs)
             return p1 + p2 + ['(.store %s %s)' % (i, r)] + q1 + q2
@@ -91,6 +103,15 @@ class Tr(Y.Tr):
             if len(a) == 1 and a[0] == ('id', 'b'):
                 return '(.call 1 (.lit 0))'
             raise TranslateError('yyfree() of something else than b or its character memory')
+        if s[0] == 'expr' and s[1][0] == 'call' and s[1][1] == 'yyensure_buffer_stack':
+            return '(.call 2 (.lit 0))'
+        if s[0] == 'expr' and s[1][0] == 'call' and s[1][1] == 'yy_init_buffer' and 'yy_init_buffer' in self.inl \
+                and len(s[1][2]) == 2 and s[1][2][0] == ('id', 'current_slot'):
+            # yy_init_buffer(<the current buffer>, f): b is the current buffer here
+            p, f, q = self.ex(s[1][2][1])
+            if p or q:
+                raise TranslateError('side effect in an argument')
+            return '(.seq (.assign %d %s) (.scope %s))' % (VARS.index('file'), f, self.inl['yy_init_buffer'])
         if s[0] == 'expr' and s[1][0] == 'call' and s[1][1] in self.inl:
             return '(.scope %s)' % self.inl[s[1][1]]
         return super().st(s)
@@ -117,6 +138,7 @@ def body_of(text, name):
     b = re.sub(r'\bb\s*==\s*yy_current_buffer\s*\(\s*\)', 'b_is_current', b)
     b = re.sub(r'\bb\s*!=\s*yy_current_buffer\s*\(\s*\)', '(! b_is_current)', b)
     b = re.sub(r'\bYY_CURRENT_BUFFER_LVALUE\s*->', 'b->', b)
+    b = re.sub(r'\byy_current_buffer\s*\(\s*\)\s*==\s*NULL\b', '(current_slot == 0)', b)
     b = re.sub(r'\bYY_CURRENT_BUFFER_LVALUE\b', 'current_slot', b)
     b = re.sub(r'\byy_buffer_stack\s*\[\s*yy_buffer_stack_top\s*\]', 'current_slot', b)
     b = re.sub(r'\(\s*void\s*\*\s*\)', ' ', b)
@@ -164,6 +186,10 @@ def translate(text):
             consts2 = dict(consts, FV_NEW_BUFFER=1)
             create = Tr({}, consts2, msgs, inl).st(P(tokenize(cb)).stmt())
     translate.create = create
+    translate.restart = None
+    if create:
+        inl['yy_create_buffer'] = create
+        translate.restart = Tr({}, consts, msgs, inl).st(P(tokenize(body_of(text, 'yyrestart'))).stmt())
     translate.msgs = msgs
     return load, flush, init, consts
 
@@ -184,6 +210,10 @@ def emit(ns, load, flush, init, consts, origin):
               'def create : St :=\n  ' + translate.create]
     L += ['/-- yy_delete_buffer(b); yyfree() is a logged call: (1, 1) the character memory of b, (1, 0) the structure -/',
           'def delete : St :=\n  ' + translate.delete]
+    if getattr(translate, 'restart', None):
+        L += ['/-- yyrestart(input_file): `b` is the current buffer - the one in the slot, or, when the slot is empty, the one',
+              '    yy_create_buffer() makes; yyensure_buffer_stack() is a logged call (2, 0) -/',
+              'def restart : St :=\n  ' + translate.restart]
     L += ['end FlexVerif.Gen.' + ns]
     return '\n'.join(L) + '\n'
 
